@@ -99,6 +99,7 @@ class Ctx:
         self.L = LocalStorageBackend(self.root)
         self.worlds: Dict[str, Any] = {}
         self.S: Dict[str, Any] = {}
+        self.OBS: Dict[str, Any] = {}
         self._entered: List[Any] = []
         for cfg, prefix in CONFIGS:
             w = S3World(bucket=BUCKET)
@@ -106,6 +107,9 @@ class Ctx:
             self._entered.append(w)
             self.worlds[cfg] = w
             self.S[cfg] = S3StorageBackend(bucket=BUCKET, prefix=prefix)
+            # a second, long-lived handle on the same store: it only ever observes (sizes, contents) what the first
+            # handle wrote - anything a backend object remembers about objects goes stale here
+            self.OBS[cfg] = S3StorageBackend(bucket=BUCKET, prefix=prefix)
             if self.S[cfg].s3 is not w.s3:
                 raise HarnessError("S3StorageBackend is not wired to the FakeS3 of its world")
         return self
@@ -401,6 +405,33 @@ def transition(ctx: Ctx, rep: Report, st: State, path: List[Any], op: Tuple[Any,
     if len(rep.samples) < 2 and len(path) >= 2 and tuple(op) in (("list_files", "d"), ("exists", "d")) and len(files) >= 2:
         rep.sample({"part": "a", "sequence": seq, "observed": {w: o for w, o in obs.items()}})
 
+    # a second handle observes every key of the alphabet after the operation: size and bytes as stored now
+    for cfg, _p in CONFIGS:
+        rel_now = post_s[cfg][0]
+        for k in KEYS:
+            rep.add("a_second_handle_observations")
+            try:
+                sz: Any = ctx.OBS[cfg].get_size(k)
+            except Exception as e:  # noqa
+                sz = ("err", type(e).__name__)
+            try:
+                f = ctx.OBS[cfg].open_seekable(k)
+                try:
+                    data: Any = f.read()
+                finally:
+                    f.close()
+            except Exception as e:  # noqa
+                data = ("err", type(e).__name__)
+            if k in rel_now:
+                ok2 = sz == len(rel_now[k]) and data == rel_now[k]
+            else:
+                ok2 = isinstance(sz, tuple) and isinstance(data, tuple)
+            if not ok2:
+                rep.violation({"part": "a", "op": op[0], "arg_class": cls, "pair": "second-handle-vs-store",
+                               "problem": "stale_or_wrong_observation_through_another_handle"},
+                              {"sequence": seq, "config": cfg, "key": k, "stored": repr(rel_now.get(k))[:60],
+                               "get_size": repr(sz), "read": repr(data)[:60]})
+                break
     changed = post_l != st or any(dict(st[0]) != r or f != foreign_of(cfg)
                                   for cfg, (r, f) in post_s.items())
     # objects outside the configured prefix are never touched (table-relative key mapping)
@@ -800,8 +831,12 @@ def run_faults(payload: Tuple[Any, ...]) -> Dict[str, Any]:
                 rep.violation({"part": "c", "method": method, "request": targets[0], "fault": "none",
                                "problem": "object_outside_prefix_touched"},
                               {"case": case, "config": cfg, "outside_after": sorted(outside)})
-            for target in targets:
-                if base_att.get(target, 0) != 1:
+            for target in list(targets):
+                if base_att.get(target, 0) == 0:
+                    # this build serves the call without that request: nothing to fault there
+                    rep.add("fault_targets_not_issued_by_the_fault_free_call")
+                    targets = [t for t in targets if t != target]
+                elif base_att.get(target, 0) != 1:
                     raise HarnessError(f"{case}: fault-free run issues {base_att} (expected one {target})")
 
                 def report(fault: str, problem: str, detail: Dict[str, Any]) -> None:
